@@ -1209,10 +1209,15 @@ def run(ctx):
     n = 0
     for i in range(0, len(sp_cases), 400):
         n += evaluate_sp(ctx, exes, sp_cases[i:i + 400], stats)
-    n += evaluate_iso(ctx, exes, iso_cases, stats)
-    n += evaluate_big(ctx, exes, big_cases, stats)
     generic_cases = [gen_generic(rng, rng.choice([4, 8, 16, 32, 64]), rng.choice([1, 2, 3, 5]))
                      for _ in range(20 if quick else 200)]
+    if quick and ctx.has_violation():
+        # the verdict (a concrete failing input) is already there; the remaining stages call the same routine and
+        # would only repeat it (and, under a hang, cost a timeout each)
+        ctx.note("later stages skipped: a violation with a replay was already recorded")
+        iso_cases, big_cases, generic_cases = [], [], []
+    n += evaluate_iso(ctx, exes, iso_cases, stats)
+    n += evaluate_big(ctx, exes, big_cases, stats)
     n += evaluate_generic(ctx, exes, generic_cases, stats)
     # search phase (CONVENTIONS 3.2): something is no longer shown and no failing input yet
     searched = 0
